@@ -15,6 +15,7 @@ PROPS["C04"] = {
     "rule": "send/pipe scenarios with resume enabled (real sendTargetCommand, real ticker, real parser in pipe cases incl. resumed starts with "
             "startDbId/base), delays {0,50,700 ms}, three threshold settings; verdict = trace accepted by the automaton + for every cut position of the "
             "recorded wire: dataset = history up to the newest stored offset, checkpoint db = selected db, runid+version present, model-resume = full run. "
+            "Pipe cases with one command argument of 64 KiB..1 MiB (thorough: 65534..2.5 MB): the offsets behind it depend on the decoder counting every byte of it. "
             "Every scenario is non-trivial; distinct by case text",
     "nontrivial": lambda c, i: True,
     "equal": _c03.make_equal("C04"),
